@@ -21,6 +21,11 @@ type Parser struct {
 	data []byte
 	pos  int
 	ops  []Operation
+
+	// operandStack temporarily holds operands until we hit an operator. It belongs
+	// to the parser: a package-level stack would leak operands from one parse into
+	// the next and be written by concurrent parses.
+	operandStack []core.Object
 }
 
 // NewParser creates a new content stream parser for the given data.
@@ -51,9 +56,6 @@ func (p *Parser) Parse() ([]Operation, error) {
 	return p.ops, nil
 }
 
-// operandStack temporarily holds operands until we hit an operator
-var operandStack []core.Object
-
 // parseNext parses the next token, which is either an operand (pushed onto the
 // stack) or an operator (which consumes the operand stack and creates an Operation).
 func (p *Parser) parseNext() error {
@@ -78,7 +80,7 @@ func (p *Parser) parseNext() error {
 		return fmt.Errorf("at position %d: %w", start, err)
 	}
 
-	operandStack = append(operandStack, operand)
+	p.operandStack = append(p.operandStack, operand)
 	return nil
 }
 
@@ -107,14 +109,14 @@ func (p *Parser) parseOperator() error {
 	// Create operation with current operand stack
 	operation := Operation{
 		Operator: operator,
-		Operands: make([]core.Object, len(operandStack)),
+		Operands: make([]core.Object, len(p.operandStack)),
 	}
-	copy(operation.Operands, operandStack)
+	copy(operation.Operands, p.operandStack)
 
 	p.ops = append(p.ops, operation)
 
 	// Clear operand stack
-	operandStack = nil
+	p.operandStack = nil
 
 	return nil
 }
